@@ -58,11 +58,6 @@ func opLongChain() error {
 	if err := rp.S.Reset(); err != nil {
 		return err
 	}
-	for _, st := range b.Hist {
-		if _, err, crashed := SafeAdd(rp.S.Svc.Chains, c.Source(st.ID)); err != nil || crashed != "" {
-			return fmt.Errorf("ingest %d: %v %s", st.ID, err, crashed)
-		}
-	}
 	out, err := os.Create(os.Getenv("VERIF_TRACE"))
 	if err != nil {
 		return err
@@ -79,6 +74,33 @@ func opLongChain() error {
 			return id
 		}
 		return -77
+	}
+	// the locator is asked WHILE the chain grows: at every tip height up to 300 and around every 2^k + 9 / 2^k + 10 (where
+	// the doubling steps land on or next to genesis) - its shape depends on the tip height alone
+	askAt := map[int]bool{}
+	for h := 0; h <= 300; h++ {
+		askAt[h] = true
+	}
+	for k := 1; k < 20; k++ {
+		for d := 7; d <= 12; d++ {
+			askAt[1<<k+d] = true
+		}
+	}
+	for _, st := range b.Hist {
+		if _, err, crashed := SafeAdd(rp.S.Svc.Chains, c.Source(st.ID)); err != nil || crashed != "" {
+			return fmt.Errorf("ingest %d: %v %s", st.ID, err, crashed)
+		}
+		if st.ID <= n && askAt[st.ID] {
+			hs, all := []int{}, true
+			for _, h := range rp.S.Svc.Headers.LatestHeaderLocator() {
+				id := idOf(*h)
+				if id < 0 || id > n {
+					all = false
+				}
+				hs = append(hs, id)
+			}
+			emit(map[string]any{"ev": "locator", "tip": st.ID, "heights": hs, "allLongest": all})
+		}
 	}
 	// the locator of the service
 	loc := rp.S.Svc.Headers.LatestHeaderLocator()
